@@ -1868,6 +1868,9 @@ class GroupBy:
         if keep_input_index:
             if common_index is None:
                 common_index = pd.RangeIndex(len(value_list[0]))
+            if self._sort:
+                # original row order, whatever the labels of the input index are
+                ilocs = np.sort(ilocs)
             out_index = common_index[ilocs]
         else:
             if n is None:
@@ -1895,7 +1898,7 @@ class GroupBy:
             result, values=values, n_values=len(value_names)
         )
 
-        if self._sort:
+        if self._sort and not keep_input_index:
             result.sort_index(inplace=True)
 
         return result
